@@ -57,6 +57,12 @@ def cellContainsPoint (c : Cell) (lon lat : Float) : Outcome Float :=
     else if c.res = Gen.FIRST_HILBERT_RESOLUTION - 2 then polyContains getFaceVertices pp
     else getPentagon c >>= fun p => polyContains p pp
 
+/-- `a5cell_distance_outside` (fix for defect F16): distance in the plane of the cell's face from the point to the cell's pentagon -/
+def cellDistanceOutside (c : Cell) (lon lat : Float) : Outcome Float :=
+  let (theta, phi) := fromLonLat lon lat
+  dodecaForward theta phi c.origin >>= fun pp =>
+  getPentagon c >>= fun p => .ok (polyDistanceOutside p pp)
+
 /-- which branch produced the answer: k ≥ 0 = k-th distinct estimate hit, -1 = fallback, -2 = low res -/
 structure LookupResult where
   id : Nat
@@ -109,7 +115,10 @@ def lookupLoop (lon lat : Float) (resolution : Int) :
     else
       cellContainsPoint est lon lat >>= fun distance =>
       if distance > 0.0 then serialize est >>= fun id => .ok ⟨id, seen.length⟩
-      else lookupLoop lon lat resolution samples (seen ++ [key]) (cells ++ [(est, distance)])
+      else
+        -- a miss is ranked by its perpendicular distance to the point (negated: the fallback takes the first maximum)
+        cellDistanceOutside est lon lat >>= fun outside =>
+        lookupLoop lon lat resolution samples (seen ++ [key]) (cells ++ [(est, -outside)])
 
 def lonlatToCellB (lon lat : Float) (resolution : Int) : Outcome LookupResult :=
   if resolution = -1 then .ok ⟨Gen.WORLD_CELL, -3⟩
